@@ -19,7 +19,7 @@ MANIFEST = dict(
         "shortcut and LinearKernel's override). Over the reals (Mathlib Matrix.PosSemidef): Gram matrices of linear, polynomial "
         "(offset>=0), monomial kernels are PSD, PSD-ness is closed under non-negative scaling, weighted sums, products (Schur), "
         "normalisation and sub-ranges, hence every kernel expression with admissible parameters is PSD and every assembled regularised "
-        "Gram matrix is PosSemidef, with PSD-ness of Gaussian/ARD leaves as an explicit hypothesis; linear kernel also PSD as a quadratic form over "
+        "Gram matrix is PosSemidef (kernel_psd: arbitrary exp, Gaussian/ARD leaves by hypothesis; kernel_psd_equalDim / gram_psd_equalDim: real exp, data of equal dimension, Gaussian (gamma>=0) and ARD (gamma_t>=0) PROVED via the exponential series and closedness of the PSD cone - no hypothesis left); linear kernel also PSD as a quadratic form over "
         "any ordered field. ModelKernel (affine model), SubrangeKernel and PointSetKernel are covered (symmetry, block=single, Gram assembly; "
         "PSD for Model/Subrange). Derivatives (HasDerivAt): the model of weightedParameterDerivative / weightedInputDerivative of the Gaussian, "
         "polynomial, linear and ARD (log-gamma) kernels, of ScaledKernel, and the log-weight derivative of WeightedSumKernel are the true "
@@ -29,7 +29,7 @@ MANIFEST = dict(
         "derivative calls, for dense and sparse inputs, under ASan/UBSan, plus an in-harness property oracle (symmetry, block=single, "
         "unit diagonal, smallest eigenvalue, finite-difference derivatives of every composed kernel)."),
   note=TRUST + "floating-point rounding is outside the theorems (exact-arithmetic statements; 'no negative eigenvalues beyond rounding' "
-       "is checked numerically by the harness oracle only); Gaussian/ARD PSD-ness is a hypothesis, not proved; derivative theorems cover "
+       "is checked numerically by the harness oracle only); Gaussian/ARD PSD-ness is proved for data of equal dimension (the C++ SIZE_CHECK) and is a hypothesis only in the variant for points of unequal length; derivative theorems cover "
        "Gaussian/polynomial/linear/ARD/scaled and the weighted-sum log-weights - derivatives of normalised, sub-range, monomial, model, point-set kernels and the "
        "weighted-sum input derivative are exercised by the finite-difference oracle only (toleranced 2e-5); the Gaussian derivative correspondence is "
        "bit-exact on 1x1 blocks only (ARD: all blocks), PointSetKernel with inexact base values only on singleton sets (summation order not modelled); "
@@ -412,7 +412,7 @@ def run(ctx):
                     "ASan/UBSan runtime for the real code's memory safety (not a theorem)"]
     ctx.assumptions += ["points of equal dimension (SIZE_CHECK), batches non-empty, scaled factor > 0, weights > 0, gamma > 0 (the C++ preconditions)",
                         "theorems are exact-arithmetic statements over ordered fields; rounding is outside them",
-                        "PSD-ness of the Gaussian / ARD kernel is a hypothesis of the PSD closure theorems (not proved)"]
+                        "PSD theorems: kernel_psd_equalDim (all kernels incl. Gaussian/ARD, data of equal dimension) needs no hypothesis; kernel_psd (points of arbitrary lengths, arbitrary exp) carries GaussianPSD as hypothesis"]
     ctx.prove(PROPS)
     if not ctx.quick:
         ctx.leanchecker(PROPS)
